@@ -36,6 +36,7 @@ func sceneFor(name string) SceneOpts {
 		o.LevPerBlock = 2
 		o.EdenPerYear = "10000000000000"
 		o.Registry = true
+		o.NoMetadata = []string{"uusdt"} // an external asset nobody listed for burning; pool 3 holds it
 	case "rewards":
 		o.EdenPerYear = "10000000000000"
 	}
@@ -121,6 +122,8 @@ func prepScene(d *Driver, name string) {
 		mk(Step{"a": "govRewardDenom", "d": "uusdc", "min": "1"}, Step{"a": "govRewardDenom", "d": "uatom", "min": "1"})
 		if name == "chain" {
 			mk(Step{"a": "govToggleEden", "p": float64(1)}, Step{"a": "govToggleEden", "p": float64(2)})
+			// pool 3: a user-created constant-product pool holding an asset without bank metadata
+			mk(Step{"a": "createPool", "kind": "bal", "fee": "0.002", "d1": "uusdt", "d2": "uusdc", "a1": "400000000000", "a2": "400000000000"}, Step{"a": "block"})
 		}
 	}
 }
